@@ -486,6 +486,61 @@ func runC06(c *Ctx) {
 						}
 					}
 				}
+				// or the iteration hands the count to a helper of the package that builds the options from it, measures
+				// with them and returns the digest
+				if !okV {
+					fromKey := func(v ssa.Value) bool { return v == mu.Key || sameElemLoadIn(L, v, mu.Key) }
+					sl.Visit(mu.Value, func(v ssa.Value) bool {
+						hc, ok := v.(*ssa.Call)
+						if !ok || okV {
+							return !okV
+						}
+						h := hc.Call.StaticCallee()
+						if h == nil || load.RelPkg(h) != "sev" || h.Blocks == nil || !L.Body[hc.Block()] || len(h.Params) != len(hc.Call.Args) {
+							return true
+						}
+						for i, a := range hc.Call.Args {
+							if !sl.Derives(a, fromKey) {
+								continue
+							}
+							prm := h.Params[i]
+							for _, hb := range h.Blocks {
+								for _, hi := range hb.Instrs {
+									st, ok := hi.(*ssa.Store)
+									if !ok {
+										continue
+									}
+									fa, ok := st.Addr.(*ssa.FieldAddr)
+									if !ok || flow.FieldName(fa) != "Vcpus" || !namedIs(fa.X.Type(), repoPath("sev"), "LaunchOptions") {
+										continue
+									}
+									if !sl.Derives(st.Val, func(x ssa.Value) bool { return x == ssa.Value(prm) }) {
+										continue
+									}
+									opts := fa.X
+									all, n := true, 0
+									for _, rb := range h.Blocks {
+										ret, ok := rb.Instrs[len(rb.Instrs)-1].(*ssa.Return)
+										if !ok || len(ret.Results) == 0 {
+											continue
+										}
+										if k, isK := ret.Results[0].(*ssa.Const); isK && k.IsNil() {
+											continue
+										}
+										n++
+										if !hb.Dominates(rb) || !sl5.Derives(ret.Results[0], func(x ssa.Value) bool { return x == opts }) {
+											all = false
+										}
+									}
+									if all && n > 0 {
+										okV = true
+									}
+								}
+							}
+						}
+						return !okV
+					}, nil)
+				}
 				c.S.Check(okV, "R5", name, c.pos(mu.Pos()), "the value stored under a count derives from a measurement taken with Vcpus set from that count earlier in the same iteration", "the measurement stored under a VMSA count is not computed with Vcpus set from that count in the same iteration")
 				okK := sl.Derives(mu.Key, func(v ssa.Value) bool {
 					return flow.IsFieldLoad(v, repoPath("sev"), "SnpEndorsementRequest", "LaunchVmsas") || isGlobalNamed(v, repoPath("sev"), "AllSupportedVmsaCounts")
@@ -499,20 +554,15 @@ func runC06(c *Ctx) {
 	// ---- R7: request parameters reach every options object used for measuring ----
 	type optRow struct{ rel, optType, field, reqType, reqField string }
 	nOpts := 0
+	sl7 := flow.NewSlicer(c.P)
+	sl7.LiftParams = 2
 	for _, row := range []optRow{{"sev", "LaunchOptions", "Product", "SnpEndorsementRequest", "Product"}} {
 		for _, f := range fns {
 			if load.RelPkg(f) != row.rel {
 				continue
 			}
-			takesReq := false
-			for _, p := range f.Params {
-				if namedIs(p.Type(), repoPath(row.rel), row.reqType) {
-					takesReq = true
-				}
-			}
-			if !takesReq {
-				continue
-			}
+			// (the function may be handed the request, or — a helper — just the values taken out of it: the
+			// derivation below follows parameters to the arguments at the call sites)
 			// options objects created here: composite literals and results of constructors
 			var objs []ssa.Value
 			for _, b := range f.Blocks {
@@ -561,7 +611,7 @@ func runC06(c *Ctx) {
 								continue
 							}
 							before := st.Block().Dominates(u.Block()) && (st.Block() != u.Block() || indexIn(st.Block(), st) < indexIn(u.Block(), u))
-							if before && sl.Derives(st.Val, func(v ssa.Value) bool {
+							if before && sl7.Derives(st.Val, func(v ssa.Value) bool {
 								return flow.IsFieldLoad(v, repoPath(row.rel), row.reqType, row.reqField)
 							}) {
 								okU = true
